@@ -62,10 +62,39 @@ Plan tostring_generate(uint64_t base, const std::string &prop, uint64_t index, i
     bool big = rd.chance(1, tier ? 40 : 150);       // one very long token (string/bytes around 2^14, 2^15, 2^16): few, they are expensive
     if (big) p.faults.push_back("shape:huge_token");
     text_tree(rd, root, 1, budget, big);
+    {
+        // text-per-byte extremes: N elements of ONE kind and nothing else (a 9-byte double may print as 318 characters, an
+        // empty container as 2): whatever the library assumes about the ratio of text to input is met at both ends
+        Rng rx = r.fork("dense");
+        if (rx.chance(1, 10)) {
+            int n = 1 + (int)rx.below(rx.chance(1, 3) ? 64 : 12);
+            unsigned kind = (unsigned)rx.below(9);
+            Node arr; arr.t = V_ARR;
+            for (int i = 0; i < n; i++) {
+                Node e;
+                switch (kind) {
+                    case 0: e.t = V_DBL; e.d = 0x7fefffffffffffffULL; break;                 // 1.797e308
+                    case 1: e.t = V_DBL; e.d = 0xffefffffffffffffULL; break;                 // -1.797e308
+                    case 2: e.t = V_DBL; e.d = 0x7fe1ccf385ebc8a0ULL ^ ((uint64_t)(i & 1) << 63); break;   // +-1e308
+                    case 3: e.t = V_INT; e.i = INT64_MIN + (i & 1); break;
+                    case 4: e.t = V_STR; break;                                              // ""
+                    case 5: e.t = V_BYTES; break;                                            // 0x
+                    case 6: e.t = V_OBJ; break;
+                    case 7: e.t = V_ARR; break;
+                    default: e.t = V_BOOL; e.b = (i & 1) != 0; break;
+                }
+                arr.kids.push_back(e);
+            }
+            root = Node(); root.t = p.root ? V_ARR : V_OBJ;
+            if (p.root) root = arr; else { arr.name = Bytes{'a'}; root.kids.push_back(arr); }
+            p.faults.push_back(fmt("shape:dense=%d*%u", n, kind));
+        }
+    }
     encode(root, p.doc);
     p.note = tree_text(root);
     p.max_depth = 10 + (int)rd.below(3);
-    if (rf.chance(1, 4)) { apply_faults(rf, p.doc, 1 + (int)rf.below(2), p.faults, nullptr); if (p.doc.size() >= 2 && rf.chance(3, 4)) { p.doc[0] = p.root ? 0x42 : 0x40; p.doc.back() = p.root ? 0x43 : 0x41; } }
+    p.par["pristine"] = 1;      // the delivered document is the generated one: valid by construction, whatever verify says
+    if (rf.chance(1, 4)) { p.par["pristine"] = 0; apply_faults(rf, p.doc, 1 + (int)rf.below(2), p.faults, nullptr); if (p.doc.size() >= 2 && rf.chance(3, 4)) { p.doc[0] = p.root ? 0x42 : 0x40; p.doc.back() = p.root ? 0x43 : 0x41; } }
     p.prefill = rd.chance(1, 2) ? (rd.next() | 1) : 0;
     p.par["nice"] = (int64_t)rd.below(2);
     // to_string restarts the parser itself (it verifies from the top), so what the object was used for before must not matter
@@ -97,7 +126,10 @@ Result tostring_execute(const Plan &p, const ExecCtx &c) {
     int pre = (int)p.P("pre");
     if (pre == 3 && !p.doc2.empty()) ps.src = p.doc2;       // the damaged version is delivered first
     Outcome i = ps.call(mk(p.root ? P_INIT_ARR : P_INIT_OBJ, -1));
-    if (!i.ret && pre != 3) { bump(r.cnt, "tostring.init_rejected"); r.trace_hash = tr.h; r.steps = ps.steps; return r; }
+    if (!i.ret && pre != 3) {
+        if (p.P("pristine") && p.doc.size() >= 2) sink.fail("C13.valid_rejected", "init rejects a generated, undamaged document: to_string cannot serve it");
+        bump(r.cnt, "tostring.init_rejected"); r.trace_hash = tr.h; r.steps = ps.steps; r.clause = sink.clause; r.detail = sink.detail; return r;
+    }
     bool valid;
     {   // validity of the document the sweep will see: real verify on a fresh parser
         Trace t2; Sink s2; s2.own = "~"; std::map<std::string, uint64_t> c2;
@@ -120,6 +152,11 @@ Result tostring_execute(const Plan &p, const ExecCtx &c) {
         }
         bump(r.cnt, fmt("tostring.prior_use_%d", pre));
         if (ps.err() != 0) bump(r.cnt, std::string("probe.to_string_on_parser_in_error_") + err_name(ps.err()));
+    }
+    if (!valid && p.P("pristine")) {
+        // validity of a generated, undamaged document is decided by the model (it is well-formed and at most 9 levels deep)
+        Node chk; Bytes re;
+        if (decode(p.doc, p.root != 0, chk)) { encode(chk, re); if (re == p.doc && need_depth(chk, p.root != 0) <= p.max_depth) sink.fail("C13.valid_rejected", "binson_parser_verify rejects a generated, undamaged, canonical document within max_depth: to_string cannot serve it"); }
     }
     bump(r.cnt, valid ? "tostring.valid_doc" : "tostring.invalid_doc");
     Outcome q = ps.call(mk(P_TO_STRING_NULL, (int64_t)(p.seed % 97), Bytes(), nice));      // incoming *size is arbitrary for a NULL buffer
